@@ -332,5 +332,22 @@ func classify(c Case, st *core.Stats) {
 	}
 }
 
-func TestC15(t *testing.T)       { core.Run(t, "C15", genCase, check) }
+// enumerated: values written out in full against the same power of ten written with an
+// exponent, at digit counts where the digit-count shortcut of Cmp (NumDigits beyond the
+// 128-bit table, a floating-point estimate) is most fragile: convergents of log10(2).
+func enumerated() []Case {
+	var out []Case
+	ctx := core.Ctx{P: 9, Emax: gen.Limit, Emin: -gen.Limit}
+	for _, k := range []int{146, 643, 4004, 8651, 12655, 21306, 33961} {
+		full := "1" + strings.Repeat("0", k)
+		plus := "1" + strings.Repeat("0", k-1) + "5"
+		for _, neg := range []bool{false, true} {
+			out = append(out, Case{Ctx: ctx, X: core.Dec{Coeff: full, Neg: neg}, Y: core.Dec{Coeff: "1", Exp: int32(k), Neg: neg}, Z: core.Dec{Coeff: plus, Neg: neg}})
+			out = append(out, Case{Ctx: ctx, X: core.Dec{Coeff: "1", Exp: int32(k), Neg: neg}, Y: core.Dec{Coeff: plus, Neg: neg}, Z: core.Dec{Coeff: "9", Exp: int32(k - 1), Neg: neg}})
+		}
+	}
+	return out
+}
+
+func TestC15(t *testing.T)       { core.RunPre(t, "C15", enumerated(), genCase, check) }
 func TestC15Replay(t *testing.T) { core.Replay(t, "C15", check) }
